@@ -60,6 +60,62 @@ def canon_attr(a):
         return '#[derive(%s)]' % ','.join(ds) if ds else None
     return s.replace(' ', '')
 
+def split_top(ws, seps):
+    """split a list of token strings at separators that are outside every bracket"""
+    out = [[]]; d = 0
+    for w in ws:
+        if w in ('(', '[', '<', '{'): d += 1
+        elif w in (')', ']', '>', '}'): d -= 1
+        elif w == '>>': d -= 2
+        if d == 0 and w in seps: out.append([])
+        else: out[-1].append(w)
+    return [x for x in out if x]
+
+def canon_generics(ws):
+    """bounds written inline (`<T: A>`) and in a `where` clause are the same thing: move them all into one sorted clause"""
+    ws = [w for w in ws]
+    # split a '>>' that closes two levels into two tokens so that matching is uniform
+    flat = []
+    for w in ws: flat += ['>', '>'] if w == '>>' else [w]
+    ws = flat
+    gi = None
+    for i, w in enumerate(ws):
+        if w == '<' and i > 0 and (ws[i - 1] == 'impl' or (i > 1 and ws[i - 2] in ('fn', 'struct', 'trait', 'enum', 'type'))): gi = i; break
+        if w in ('(', '{'): break
+    preds = []; head = ws; gen_names = None
+    if gi is not None:
+        d = 0; gj = None
+        for j in range(gi, len(ws)):
+            if ws[j] == '<': d += 1
+            elif ws[j] == '>':
+                d -= 1
+                if d == 0: gj = j; break
+        if gj is None: return ' '.join(ws)
+        names = []
+        for prm in split_top(ws[gi + 1:gj], (',',)):
+            if ':' in prm and prm[0] != 'const':
+                k = prm.index(':'); names.append(' '.join(prm[:k]))
+                for b in split_top(prm[k + 1:], ('+',)): preds.append((' '.join(prm[:k]), ' '.join(b)))
+            else: names.append(' '.join(prm))
+        gen_names = names
+        head = ws[:gi] + ['<'] + [', '.join(names)] + ['>'] + ws[gj + 1:]
+    # where clause (top level)
+    d = 0; wi = None
+    for i, w in enumerate(head):
+        if w in ('(', '[', '<'): d += 1
+        elif w in (')', ']', '>'): d -= 1
+        elif w == 'where' and d == 0: wi = i; break
+    if wi is not None:
+        for pr in split_top(head[wi + 1:], (',',)):
+            if ':' in pr:
+                k = pr.index(':')
+                for b in split_top(pr[k + 1:], ('+',)): preds.append((' '.join(pr[:k]), ' '.join(b)))
+            else: preds.append((' '.join(pr), ''))
+        head = head[:wi]
+    txt = ' '.join(head)
+    if preds: txt += ' where ' + ' , '.join('%s : %s' % p_ for p_ in sorted(set(preds)))
+    return txt
+
 def segment(toks, prefix, out, translated_lines, fnnames):
     i = 0; n = len(toks)
     while i < n:
@@ -92,6 +148,9 @@ def segment(toks, prefix, out, translated_lines, fnnames):
         cattrs = [c for c in (canon_attr(a) for a in attrs) if c]
         atxt = ''.join(c + ' ' for c in sorted(cattrs))
         htxt = text(header)
+        if kw in ('fn', 'impl', 'struct', 'trait'):
+            try: htxt = canon_generics(htxt.split(' '))
+            except Exception: pass
         if j >= n or toks[j].val == ';':
             if kw == 'use': pass            # imports: a changed import either fails to compile or changes nothing that a body's text does not show
             else: out.append(prefix + atxt + htxt + ' ;')
